@@ -772,6 +772,19 @@ OutsideNested(x, cid, target) ==
   /\ ctr' = [ctr EXCEPT !.msg = BumpN(x, @, 1)]
   /\ AdvFrame
 
+\* ghost mark: this message was re-labelled by the attacker (the layering claims speak about untouched cells)
+Taint(m) == [taint |-> TRUE] @@ m
+\* the rendezvous point, instead of passing a cell of one half of the link on to the other half, turns it round: it takes off
+\* the hop layer it holds and sends the rest back on the circuit it came in on (the end-to-end layer inside is the sender's own)
+RPReflect(rp, d) ==
+  /\ AdvStep /\ d \in net /\ d.t = "cell" /\ d.dst = rp /\ ~d.plain /\ d.L # <<>>
+  /\ Has(relay[rp], d.cid) /\ relay[rp][d.cid].rdv /\ Has(relay[rp], relay[rp][d.cid].to)
+  /\ Head(d.L) = Layer(relay[rp][d.cid].key, F)
+  /\ LET back == relay[rp][relay[rp][d.cid].to].next IN
+       net' = (net \ {d}) \cup {[d EXCEPT !.src = rp, !.dst = back, !.early = FALSE,
+                                           !.L = <<Layer(relay[rp][d.cid].key, B)>> \o Tail(d.L), !.m = Taint(@)]}
+  /\ UNCHANGED ctr /\ AdvFrame
+
 \* any byte of an encrypted cell altered in flight (the outermost AEAD layer no longer verifies)
 Tamper(d) == /\ AdvStep /\ d \in net /\ d.t = "cell" /\ d.L # <<>>
              /\ net' = (net \ {d}) \cup {[d EXCEPT !.L = <<[Head(d.L) EXCEPT !.ok = FALSE]>> \o Tail(d.L),
@@ -779,8 +792,6 @@ Tamper(d) == /\ AdvStep /\ d \in net /\ d.t = "cell" /\ d.L # <<>>
              /\ UNCHANGED ctr /\ AdvFrame
 \* a header byte altered: the datagram no longer reaches a tunnel handler (prefix, message id, signature), names an
 \* unknown circuit (cid), or carries flipped plaintext / relay_early flags
-\* ghost mark: this message was re-labelled by the attacker (the layering claims speak about untouched cells)
-Taint(m) == [taint |-> TRUE] @@ m
 TamperHeader(d, what) ==
   /\ AdvStep /\ d \in net /\ what \in {"drop", "cid", "plain", "early", "same"}
   /\ d.t = "destroy" => what = "drop"
@@ -889,6 +900,7 @@ Adversary ==
   \/ "plain" \in AdvKinds /\ \E src \in AdvSrcs, dst \in Node, cid \in 1..ctr.cid, mt \in {"data", "ping"} : AdvPlain(src, dst, cid, mt)
   \/ "destroy" \in AdvKinds /\ \E src \in AdvSrcs, dst \in Node, cid \in 1..ctr.cid, s \in Everyone : ForgeDestroy(src, dst, cid, s)
   \/ "rpforge" \in AdvKinds /\ \E rp \in Node, cid \in 1..ctr.cid : RPForge(rp, cid)
+  \/ "reflect" \in AdvKinds /\ \E rp \in Node, d \in net : RPReflect(rp, d)
   \/ "nested" \in AdvKinds /\ \E x \in Node, cid \in 1..ctr.cid, tg \in 1..ctr.cid : OutsideNested(x, cid, tg)
   \/ "mangle" \in AdvKinds /\ \E d \in net, how \in {"ident", "cid", "eph", "ephauth", "auth", "cands"}, c \in 0..ctr.cid :
         (how # "cid" => c = 0) /\ MangleAnswer(d, how, c)
